@@ -4,7 +4,7 @@ import QipVerif.Model.SimKet
 
 scalar  = `e:c0_c1_.._c7`          value (Σ c_j ζ^j)/2^e, ζ = e^{iπ/8}
 vector  = scalar,scalar,…          matrix = row;row;…
-op      = `NAME/targets/controls/angle/cn/arg[/objname]`  (GateIO gate encoding + `cn` = 1 iff `gate.controls is None`
+op      = `NAME/targets/controls/angle/cn/arg[/objname|-[/control_value]]`  (GateIO gate encoding + `cn` = 1 iff `gate.controls is None`
                                                   + integer `arg` = `arg_value` handed to a 1-argument user function, `-` if none
                                                   + optionally the object's `.name` attribute — the key of the user-table
                                                   lookup — when the gate object was built through a gate class)
@@ -56,7 +56,7 @@ def errName : Err → String
   | .embed .index => "embed-index" | .embed .permute => "embed-permute"
   | .index => "index" | .einsum => "einsum" | .empty => "empty"
   | .userControls => "userControls" | .userParams => "userParams" | .userNeither => "userNeither"
-  | .unknownGate => "unknownGate" | .fuel => "fuel" | .measurement => "measurement"
+  | .unknownGate => "unknownGate" | .fuel => "fuel" | .measurement => "measurement" | .controlValue => "controlValue"
 
 structure UDef where
   name : String
@@ -86,20 +86,26 @@ structure OpReq where
   /-- the `.name` attribute of the gate object when it differs from the library name of its matrix
   (objects built through the gate classes: `H(0).name = "H"`, `CY(0, 1).name = "_OneControlledGate"` …) -/
   objname : Option String := none
+  /-- `gate.control_value` when given explicitly -/
+  cv : Option Nat := none
 
 def opReq6? (n t c a cn arg : String) (objname : Option String) : Option OpReq :=
   match gate? ("/".intercalate [n, t, c, a]), cn.toNat? with
   | some g, some cnv =>
-    if arg == "-" then some ⟨g, cnv == 1, none, objname⟩ else
+    if arg == "-" then some ⟨g, cnv == 1, none, objname, none⟩ else
       match arg.toInt? with
-      | some v => some ⟨g, cnv == 1, some v, objname⟩
+      | some v => some ⟨g, cnv == 1, some v, objname, none⟩
       | none => none
   | _, _ => none
 
 def opReq? (s : String) : Option OpReq :=
   match s.splitOn "/" with
   | [n, t, c, a, cn, arg] => opReq6? n t c a cn arg none
-  | [n, t, c, a, cn, arg, on] => opReq6? n t c a cn arg (some on)
+  | [n, t, c, a, cn, arg, on] => opReq6? n t c a cn arg (if on == "-" then none else some on)
+  | [n, t, c, a, cn, arg, on, cv] =>
+    match cv.toNat?, opReq6? n t c a cn arg (if on == "-" then none else some on) with
+    | some v, some r => some { r with cv := some v }
+    | _, _ => none
   | _ => none
 
 def opReqs? (s : String) : Option (List OpReq) :=
@@ -126,7 +132,7 @@ def userGateOf (u : UDef) : UserGate OpReq S where
     | some q => u.mat.map (·.map (CycD.mul ⟨0, Cyc.ofInt (q.arg.getD 0)⟩))
 
 def reqOf (r : OpReq) : GateReq OpReq :=
-  ⟨r.objname.getD r.g.name.toString, r.g.targets, r.g.controls, r.cn, r⟩
+  ⟨r.objname.getD r.g.name.toString, r.g.targets, r.g.controls, r.cn, r, r.cv⟩
 
 /-- resolution of the gate objects to matrix steps: the model's `resolveAll` (Model/SimKet.lean (f));
 a GLOBALPHASE with a symbolic angle cannot be represented exactly and is refused here -/
